@@ -3,6 +3,7 @@ from __future__ import annotations
 
 import ast
 import decimal
+import io
 import struct
 from typing import Callable, Dict, Iterable, List, Optional, Sequence, Set, Tuple
 
@@ -162,7 +163,9 @@ def struct_codes(fmt: str) -> List[str]:
     return out
 
 
-# ---- a whitelisted evaluator for tiny pure conversion functions ---------------------------------------------------
+# ---- a whitelisted interpreter for small pure methods --------------------------------------------------------------
+# Repository code is never imported or run by CPython: its AST is interpreted here over concrete finite inputs, and only
+# the constructs / builtins / methods enumerated below are understood (anything else is ``Unsupported`` -> analysis error).
 
 class Unsupported(Exception):
     pass
@@ -175,60 +178,143 @@ class Raised(Exception):
 
 
 class Inst:
-    """An instance of a class of the analysed module (only its class name matters)."""
+    """An instance of a class of the analysed module."""
 
+    def __init__(self, cls: ast.ClassDef, **fields):
+        self.cls = cls
+        self.fields: Dict[str, object] = dict(fields)
+
+    def __repr__(self):
+        return f"<{self.cls.name} {self.fields!r}>"
+
+
+class _Bound:
+    def __init__(self, inst: Inst, name: str):
+        self.inst, self.name = inst, name
+
+
+class _ClassRef:
     def __init__(self, cls: ast.ClassDef):
         self.cls = cls
 
 
 _TYPES = {"int": int, "float": float, "str": str, "bytes": bytes, "bool": bool, "list": list, "tuple": tuple, "dict": dict,
-          "decimal.Decimal": decimal.Decimal}
-_PURE = {"int": int, "float": float, "str": str, "repr": repr, "len": len, "bytes": bytes, "bool": bool, "abs": abs, "ord": ord, "chr": chr}
-_METHODS = {"encode", "decode", "lower", "upper", "strip", "join", "startswith", "endswith"}
+          "bytearray": bytearray, "set": set, "decimal.Decimal": decimal.Decimal}
+_PURE = {"int": int, "float": float, "str": str, "repr": repr, "len": len, "bytes": bytes, "bool": bool, "abs": abs, "ord": ord, "chr": chr,
+         "sorted": sorted, "range": range, "list": list, "tuple": tuple, "set": set, "min": min, "max": max, "sum": sum, "bytearray": bytearray,
+         "type": type, "dict": dict, "divmod": divmod, "enumerate": enumerate, "zip": zip, "reversed": reversed}
+_STRUCT = {"struct.pack": struct.pack, "pack": struct.pack, "struct.unpack": struct.unpack, "unpack": struct.unpack,
+           "struct.calcsize": struct.calcsize, "calcsize": struct.calcsize}
+_NOOPS = {"log.msg", "log.err", "warnings.warn"}
+_OBJ_METHODS = {  # methods that may be called on plain Python values, by receiver type
+    (str, bytes, bytearray): {"encode", "decode", "lower", "upper", "strip", "lstrip", "rstrip", "join", "startswith", "endswith", "find", "split",
+                              "replace", "title", "count", "index", "isdigit", "hex"},
+    (list,): {"append", "extend", "pop", "insert", "index", "count", "copy", "reverse", "sort"},
+    (dict,): {"items", "keys", "values", "get", "pop", "copy", "setdefault", "update"},
+    (set,): {"add", "discard", "copy"},
+    (io.BytesIO,): {"write", "read", "tell", "seek", "getvalue"},
+}
+_PY_ERRORS = (ValueError, TypeError, ArithmeticError, LookupError, struct.error, EOFError, AttributeError)
+
+
+def _err_name(e: BaseException) -> str:
+    return "struct.error" if isinstance(e, struct.error) else type(e).__name__
 
 
 class MiniEval:
-    """Evaluates small pure methods of classes of one module: literals, arithmetic, %-formatting, comparisons,
-    if/return/raise, isinstance on builtin types, a few pure builtins and str/bytes methods, calls of methods of
-    module classes (``self.m(x)``, ``Base.m(self, x)``) and class-level aliases such as ``fromString = int``."""
+    """Interprets small methods/functions of one module over concrete values: literals, arithmetic, %-formatting, comparisons,
+    subscripts and slices, if/for/while/try/return/raise/assignments, attribute reads and writes on modelled instances,
+    isinstance/type on builtin types, a table of pure builtins, struct.pack/unpack/calcsize, whitelisted methods of
+    str/bytes/list/dict/set/BytesIO values, calls of module functions, of methods of module classes (``self.m(x)``,
+    ``Base.m(self, x)``), constructors of module classes and class-level aliases such as ``fromString = int``."""
 
-    def __init__(self, mod, helpers: Optional[Dict[str, Callable]] = None):
+    FUEL = 200000
+
+    def __init__(self, mod, helpers: Optional[Dict[str, Callable]] = None, consts: Optional[Dict[str, object]] = None, extra_mods: Sequence[object] = ()):
         self.mod = mod
+        self.mods = [mod] + list(extra_mods)      # names imported from these modules resolve to their definitions
         self.helpers = dict(helpers or {})
+        self.consts = dict(consts or {})
         self.depth = 0
+        self.fuel = self.FUEL
+        self._home: Dict[int, object] = {}
 
-    def method(self, inst: Inst, name: str, args: Sequence[object]):
-        r = mro_lookup(self.mod, inst.cls, name)
+    def find(self, name: str):
+        for m in self.mods:
+            d = m.find(name)
+            if d is not None:
+                return d
+        return None
+
+    def home(self, cls: ast.ClassDef):
+        """The module a class is defined in (its bases are resolved there)."""
+        k = id(cls)
+        if k not in self._home:
+            self._home[k] = next((m for m in self.mods if any(c is cls for c in m.tree.body) or any(c is cls for c in ast.walk(m.tree) if isinstance(c, ast.ClassDef))), self.mod)
+        return self._home[k]
+
+    # ---- calls -------------------------------------------------------------------------------------------------
+    def method(self, inst: Inst, name: str, args: Sequence[object], kw: Optional[Dict[str, object]] = None):
+        r = mro_lookup(self.home(inst.cls), inst.cls, name)
         if r is None:
             raise Unsupported(f"{inst.cls.name}.{name} not found")
         owner, target = r
         if isinstance(target, (ast.FunctionDef, ast.AsyncFunctionDef)):
-            return self.func(target, [inst] + list(args))
-        # class-level alias: fromString = int
-        d = dotted(target)
+            if any(dotted(d) in ("property", "classmethod", "staticmethod") for d in target.decorator_list):
+                raise Unsupported(f"decorated method {inst.cls.name}.{name}")
+            return self.func(target, [inst] + list(args), kw)
+        d = dotted(target)   # class-level alias: fromString = int
         if d in _PURE:
-            return self._builtin(d, list(args))
+            return self._pure(d, list(args))
         raise Unsupported(f"{inst.cls.name}.{name} = {src(target)}")
 
-    def func(self, f: ast.FunctionDef, args: Sequence[object]):
+    def construct(self, cls: ast.ClassDef, args: Sequence[object], kw: Optional[Dict[str, object]] = None) -> Inst:
+        o = Inst(cls)
+        if mro_lookup(self.home(cls), cls, "__init__") is not None:
+            self.method(o, "__init__", args, kw)
+        elif args or kw:
+            raise Raised("TypeError")
+        return o
+
+    def func(self, f: ast.FunctionDef, args: Sequence[object], kw: Optional[Dict[str, object]] = None):
         self.depth += 1
-        if self.depth > 40:
+        if self.depth > 60:
             raise Unsupported("call depth")
         try:
-            params = [p.arg for p in f.args.args]
-            if len(args) > len(params) or f.args.vararg or f.args.kwarg:
+            a = f.args
+            if a.vararg or a.kwarg or a.posonlyargs:
                 raise Unsupported("signature of " + f.name)
+            params = [p.arg for p in a.args]
+            if len(args) > len(params):
+                raise Raised("TypeError")
             env: Dict[str, object] = dict(zip(params, args))
-            defaults = dict(zip(params[len(params) - len(f.args.defaults):], f.args.defaults))
-            for p in params[len(args):]:
-                if p not in defaults:
+            for k, v in (kw or {}).items():
+                if k in env or k not in params + [p.arg for p in a.kwonlyargs]:
                     raise Raised("TypeError")
-                env[p] = self.expr(defaults[p], {})
+                env[k] = v
+            defaults = dict(zip(params[len(params) - len(a.defaults):], a.defaults))
+            for p in params:
+                if p not in env:
+                    if p not in defaults:
+                        raise Raised("TypeError")
+                    env[p] = self.expr(defaults[p], {})
+            for p, d in zip(a.kwonlyargs, a.kw_defaults):
+                if p.arg not in env:
+                    if d is None:
+                        raise Raised("TypeError")
+                    env[p.arg] = self.expr(d, {})
             r = self.block(f.body, env)
-            return r[1] if r else None
+            return r[1] if r and r[0] == "return" else None
         finally:
             self.depth -= 1
 
+    def _pure(self, name: str, args: List[object]):
+        try:
+            return _PURE[name](*args)
+        except _PY_ERRORS as e:
+            raise Raised(_err_name(e))
+
+    # ---- statements --------------------------------------------------------------------------------------------
     def block(self, stmts, env):
         for st in stmts:
             r = self.stmt(st, env)
@@ -236,7 +322,42 @@ class MiniEval:
                 return r
         return None
 
+    def _tick(self):
+        self.fuel -= 1
+        if self.fuel <= 0:
+            raise Unsupported("evaluation budget exhausted (possible non-termination)")
+
+    def store(self, t, v, env):
+        if isinstance(t, ast.Name):
+            env[t.id] = v
+        elif isinstance(t, ast.Attribute):
+            o = self.expr(t.value, env)
+            if not isinstance(o, Inst):
+                raise Unsupported("attribute store on " + src(t.value))
+            o.fields[t.attr] = v
+        elif isinstance(t, (ast.Tuple, ast.List)):
+            try:
+                vs = list(v)
+            except TypeError:
+                raise Raised("TypeError")
+            if len(vs) != len(t.elts):
+                raise Raised("ValueError")
+            for e, x in zip(t.elts, vs):
+                self.store(e, x, env)
+        elif isinstance(t, ast.Subscript) and not isinstance(t.slice, ast.Slice):
+            o = self.expr(t.value, env)
+            k = self.expr(t.slice, env)
+            if not isinstance(o, (list, dict)):
+                raise Unsupported("subscript store on " + src(t.value))
+            try:
+                o[k] = v
+            except _PY_ERRORS as e:
+                raise Raised(_err_name(e))
+        else:
+            raise Unsupported("assignment target " + src(t))
+
     def stmt(self, st, env):
+        self._tick()
         if isinstance(st, ast.Expr):
             if not isinstance(st.value, ast.Constant):
                 self.expr(st.value, env)
@@ -246,24 +367,125 @@ class MiniEval:
         if isinstance(st, ast.Assign):
             v = self.expr(st.value, env)
             for t in st.targets:
-                if not isinstance(t, ast.Name):
-                    raise Unsupported("assignment target " + src(t))
-                env[t.id] = v
+                self.store(t, v, env)
+            return None
+        if isinstance(st, ast.AnnAssign):
+            if st.value is not None:
+                self.store(st.target, self.expr(st.value, env), env)
+            return None
+        if isinstance(st, ast.AugAssign):
+            cur = self.expr(ast.copy_location(_load(st.target), st.target), env)
+            v = self._binop(st.op, cur, self.expr(st.value, env))
+            self.store(st.target, v, env)
             return None
         if isinstance(st, ast.Return):
             return ("return", None if st.value is None else self.expr(st.value, env))
+        if isinstance(st, ast.Break):
+            return ("break", None)
+        if isinstance(st, ast.Continue):
+            return ("continue", None)
         if isinstance(st, ast.If):
-            return self.block(st.body if self.expr(st.test, env) else st.orelse, env)
+            return self.block(st.body if self.truth(self.expr(st.test, env)) else st.orelse, env)
+        if isinstance(st, ast.For):
+            it = self.expr(st.iter, env)
+            if not isinstance(it, (list, tuple, range, bytes, str, dict, set, bytearray)) and type(it).__name__ not in ("dict_items", "dict_keys", "dict_values", "enumerate", "zip", "reversed"):
+                raise Raised("TypeError") if isinstance(it, (int, float, type(None))) else Unsupported("iteration over " + type(it).__name__)
+            broke = False
+            for x in list(it):
+                self._tick()
+                self.store(st.target, x, env)
+                r = self.block(st.body, env)
+                if r is not None:
+                    if r[0] == "break":
+                        broke = True
+                        break
+                    if r[0] == "return":
+                        return r
+            if not broke and st.orelse:
+                return self.block(st.orelse, env)
+            return None
+        if isinstance(st, ast.While):
+            while self.truth(self.expr(st.test, env)):
+                self._tick()
+                r = self.block(st.body, env)
+                if r is not None:
+                    if r[0] == "break":
+                        return None
+                    if r[0] == "return":
+                        return r
+            return self.block(st.orelse, env) if st.orelse else None
         if isinstance(st, ast.Raise):
+            if st.exc is None:
+                cur = env.get("<exc>")
+                if cur is None:
+                    raise Unsupported("bare raise outside handler")
+                raise Raised(str(cur))
             e = st.exc.func if isinstance(st.exc, ast.Call) else st.exc
-            raise Raised((dotted(e) or "?").split(".")[-1])
+            raise Raised((dotted(e) or "?").split(".")[-1] if dotted(e) != "struct.error" else "struct.error")
+        if isinstance(st, ast.Try):
+            try:
+                try:
+                    r = self.block(st.body, env)
+                    if r is None and st.orelse:
+                        r = self.block(st.orelse, env)
+                except Raised as ex:
+                    for h in st.handlers:
+                        if _handler_matches(h, ex.name):
+                            if h.name:
+                                env[h.name] = ex
+                            env["<exc>"] = ex.name
+                            r = self.block(h.body, env)
+                            break
+                    else:
+                        raise
+            finally:
+                if st.finalbody:
+                    fr = self.block(st.finalbody, env)
+                    if fr is not None:
+                        return fr
+            return r
+        if isinstance(st, (ast.FunctionDef, ast.Import, ast.ImportFrom)):
+            raise Unsupported("statement " + type(st).__name__)
         raise Unsupported("statement " + type(st).__name__)
 
-    def _builtin(self, name: str, args: List[object]):
+    # ---- expressions -------------------------------------------------------------------------------------------
+    @staticmethod
+    def truth(v) -> bool:
+        return True if isinstance(v, (Inst, _Bound, _ClassRef)) else bool(v)
+
+    def _binop(self, op, a, b):
+        if isinstance(a, (Inst, _Bound, _ClassRef)) or isinstance(b, (Inst, _Bound, _ClassRef)):
+            raise Unsupported("operator on instance")
         try:
-            return _PURE[name](*args)
-        except (ValueError, TypeError, OverflowError, UnicodeError) as e:
-            raise Raised(type(e).__name__)
+            if isinstance(op, ast.Add):
+                return a + b
+            if isinstance(op, ast.Sub):
+                return a - b
+            if isinstance(op, ast.Mult):
+                if isinstance(a, int) and isinstance(b, int) or not (isinstance(a, int) or isinstance(b, int)) or max(abs(a) if isinstance(a, int) else 0, abs(b) if isinstance(b, int) else 0) < 1 << 20:
+                    return a * b
+                raise Unsupported("huge repetition")
+            if isinstance(op, ast.Mod):
+                return a % b
+            if isinstance(op, ast.FloorDiv):
+                return a // b
+            if isinstance(op, ast.Div):
+                return a / b
+            if isinstance(op, ast.LShift) and isinstance(b, int) and b < 4096:
+                return a << b
+            if isinstance(op, ast.RShift):
+                return a >> b
+            if isinstance(op, ast.BitAnd):
+                return a & b
+            if isinstance(op, ast.BitOr):
+                return a | b
+            if isinstance(op, ast.BitXor):
+                return a ^ b
+            if isinstance(op, ast.Pow) and isinstance(b, int) and abs(b) < 4096:
+                return a ** b
+        except _PY_ERRORS as e:
+            raise Raised(_err_name(e))
+        raise Unsupported("operator " + type(op).__name__)
 
     def expr(self, n, env):
         if isinstance(n, ast.Constant):
@@ -271,49 +493,91 @@ class MiniEval:
         if isinstance(n, ast.Name):
             if n.id in env:
                 return env[n.id]
+            if n.id in self.consts:
+                return self.consts[n.id]
+            if n.id in _TYPES:
+                return _TYPES[n.id]
+            c = self.find(n.id)
+            if isinstance(c, ast.ClassDef):
+                return _ClassRef(c)
+            if n.id == "NotImplemented":
+                return NotImplemented
             raise Unsupported("name " + n.id)
         if isinstance(n, ast.Tuple):
             return tuple(self.expr(e, env) for e in n.elts)
         if isinstance(n, ast.List):
             return [self.expr(e, env) for e in n.elts]
+        if isinstance(n, ast.Dict):
+            return {self.expr(k, env): self.expr(v, env) for k, v in zip(n.keys, n.values)}
         if isinstance(n, ast.JoinedStr):
             raise Unsupported("f-string value")
+        if isinstance(n, ast.Attribute):
+            o = self.expr(n.value, env)
+            if isinstance(o, Inst):
+                if n.attr in o.fields:
+                    return o.fields[n.attr]
+                if n.attr == "__dict__":
+                    return o.fields
+                r = mro_lookup(self.home(o.cls), o.cls, n.attr)
+                if r is None:
+                    raise Raised("AttributeError")
+                if isinstance(r[1], (ast.FunctionDef, ast.AsyncFunctionDef)):
+                    return _Bound(o, n.attr)
+                if isinstance(r[1], ast.Name) and r[1].id in _TYPES:      # class-level alias such as  fromString = int
+                    return _TYPES[r[1].id]
+                v = class_const(self.home(o.cls), o.cls, n.attr, self.consts)
+                if v is None and not (isinstance(r[1], ast.Constant) and r[1].value is None):
+                    raise Unsupported(f"class attribute {o.cls.name}.{n.attr}")
+                return v
+            if isinstance(o, _ClassRef):
+                v = class_const(self.home(o.cls), o.cls, n.attr, self.consts)
+                if v is None:
+                    raise Unsupported(f"class attribute {o.cls.name}.{n.attr}")
+                return v
+            for types, names in _OBJ_METHODS.items():
+                if isinstance(o, types) and n.attr in names:
+                    return getattr(o, n.attr)
+            raise Raised("AttributeError") if isinstance(o, (int, float, type(None), bool)) else Unsupported("attribute " + src(n))
+        if isinstance(n, ast.Subscript):
+            o = self.expr(n.value, env)
+            if isinstance(o, (Inst, _Bound, _ClassRef)):
+                raise Unsupported("subscript on instance")
+            try:
+                if isinstance(n.slice, ast.Slice):
+                    lo = self.expr(n.slice.lower, env) if n.slice.lower else None
+                    hi = self.expr(n.slice.upper, env) if n.slice.upper else None
+                    stp = self.expr(n.slice.step, env) if n.slice.step else None
+                    return o[lo:hi:stp]
+                return o[self.expr(n.slice, env)]
+            except _PY_ERRORS as e:
+                raise Raised(_err_name(e))
         if isinstance(n, ast.UnaryOp):
             v = self.expr(n.operand, env)
             if isinstance(n.op, ast.Not):
-                return not v
-            if isinstance(n.op, ast.USub) and isinstance(v, (int, float)):
-                return -v
+                return not self.truth(v)
+            try:
+                if isinstance(n.op, ast.USub):
+                    return -v
+                if isinstance(n.op, ast.UAdd):
+                    return +v
+                if isinstance(n.op, ast.Invert):
+                    return ~v
+            except TypeError:
+                raise Raised("TypeError")
             raise Unsupported("unary")
         if isinstance(n, ast.BoolOp):
             v = None
             for e in n.values:
                 v = self.expr(e, env)
-                if isinstance(n.op, ast.And) and not v:
+                if isinstance(n.op, ast.And) and not self.truth(v):
                     return v
-                if isinstance(n.op, ast.Or) and v:
+                if isinstance(n.op, ast.Or) and self.truth(v):
                     return v
             return v
         if isinstance(n, ast.IfExp):
-            return self.expr(n.body if self.expr(n.test, env) else n.orelse, env)
+            return self.expr(n.body if self.truth(self.expr(n.test, env)) else n.orelse, env)
         if isinstance(n, ast.BinOp):
-            a, b = self.expr(n.left, env), self.expr(n.right, env)
-            if isinstance(a, Inst) or isinstance(b, Inst):
-                raise Unsupported("operator on instance")
-            try:
-                if isinstance(n.op, ast.Add):
-                    return a + b
-                if isinstance(n.op, ast.Sub):
-                    return a - b
-                if isinstance(n.op, ast.Mult):
-                    return a * b
-                if isinstance(n.op, ast.Mod):
-                    return a % b
-                if isinstance(n.op, ast.FloorDiv):
-                    return a // b
-            except (TypeError, ValueError, ZeroDivisionError, OverflowError) as e:
-                raise Raised(type(e).__name__)
-            raise Unsupported("operator")
+            return self._binop(n.op, self.expr(n.left, env), self.expr(n.right, env))
         if isinstance(n, ast.Compare):
             left = self.expr(n.left, env)
             for op, rn in zip(n.ops, n.comparators):
@@ -329,48 +593,152 @@ class MiniEval:
                     return False
                 left = right
             return True
+        if isinstance(n, ast.ListComp) and len(n.generators) == 1 and not n.generators[0].is_async:
+            gen = n.generators[0]
+            out = []
+            env2 = dict(env)
+            for x in list(self.expr(gen.iter, env)):
+                self._tick()
+                self.store(gen.target, x, env2)
+                if all(self.truth(self.expr(c, env2)) for c in gen.ifs):
+                    out.append(self.expr(n.elt, env2))
+            return out
         if isinstance(n, ast.Call):
-            if any(isinstance(a, ast.Starred) for a in n.args) or any(k.arg is None for k in n.keywords):
-                raise Unsupported("star args")
-            fname = dotted(n.func)
-            if fname == "isinstance" and len(n.args) == 2:
-                v = self.expr(n.args[0], env)
-                tn = dotted(n.args[1])
-                ts = [dotted(e) for e in n.args[1].elts] if isinstance(n.args[1], ast.Tuple) else [tn]
-                if not all(t in _TYPES for t in ts):
-                    raise Unsupported("isinstance against " + src(n.args[1]))
-                return isinstance(v, tuple(_TYPES[t] for t in ts))
-            args = [self.expr(a, env) for a in n.args]
-            if n.keywords:
-                raise Unsupported("keyword arguments")
-            if fname in self.helpers:
-                try:
-                    return self.helpers[fname](*args)
-                except (ValueError, TypeError, ArithmeticError, UnicodeError) as e:
-                    raise Raised(type(e).__name__)
-            if fname in _PURE:
-                return self._builtin(fname, args)
-            if isinstance(n.func, ast.Attribute):
-                f = n.func
-                # Base.method(self, x)
-                if isinstance(f.value, ast.Name) and f.value.id not in env:
-                    c = self.mod.find(f.value.id)
-                    if isinstance(c, ast.ClassDef) and args and isinstance(args[0], Inst):
-                        r = mro_lookup(self.mod, c, f.attr)
-                        if r and isinstance(r[1], ast.FunctionDef):
-                            return self.func(r[1], args)
-                    raise Unsupported("call " + src(f))
-                recv = self.expr(f.value, env)
-                if isinstance(recv, Inst):
-                    return self.method(recv, f.attr, args)
-                if isinstance(recv, (str, bytes)) and f.attr in _METHODS:
-                    try:
-                        return getattr(recv, f.attr)(*args)
-                    except (UnicodeError, TypeError, ValueError, LookupError) as e:
-                        raise Raised(type(e).__name__)
-                raise Unsupported("call " + src(f))
-            raise Unsupported("call " + src(n.func))
+            return self.call(n, env)
         raise Unsupported("expression " + type(n).__name__)
+
+    def call(self, n: ast.Call, env):
+        if any(isinstance(a, ast.Starred) for a in n.args) or any(k.arg is None for k in n.keywords):
+            raise Unsupported("star args")
+        fname = dotted(n.func)
+        if fname == "isinstance" and len(n.args) == 2:
+            v = self.expr(n.args[0], env)
+            ts = n.args[1].elts if isinstance(n.args[1], ast.Tuple) else [n.args[1]]
+            pys = []
+            for t in ts:
+                d = dotted(t)
+                if d in _TYPES:
+                    pys.append(_TYPES[d])
+                else:
+                    c = self.find(d or "")
+                    if isinstance(c, ast.ClassDef):
+                        if isinstance(v, Inst) and _derives(self.home(v.cls), v.cls, c.name):
+                            return True
+                        continue
+                    raise Unsupported("isinstance against " + src(t))
+            return isinstance(v, tuple(pys)) if pys else False
+        if fname in _NOOPS:
+            for a in n.args:
+                self.expr(a, env)       # operands are evaluated eagerly (a bad %-format raises here)
+            return None
+        args = [self.expr(a, env) for a in n.args]
+        kw = {k.arg: self.expr(k.value, env) for k in n.keywords}
+        if fname in self.helpers and fname not in env:
+            try:
+                return self.helpers[fname](*args, **kw)
+            except _PY_ERRORS as e:
+                raise Raised(_err_name(e))
+        if fname in _STRUCT and fname not in env:
+            try:
+                return _STRUCT[fname](*args)
+            except _PY_ERRORS as e:
+                raise Raised(_err_name(e))
+        if fname == "BytesIO" or fname == "io.BytesIO":
+            return io.BytesIO(*args)
+        if isinstance(n.func, ast.Name):
+            if n.func.id in env:
+                callee = env[n.func.id]
+                return self._call_value(callee, args, kw, src(n.func))
+            if n.func.id in _PURE and not kw:
+                return self._pure(n.func.id, args)
+            d = self.find(n.func.id)
+            if isinstance(d, ast.FunctionDef):
+                return self.func(d, args, kw)
+            if isinstance(d, ast.ClassDef):
+                return self.construct(d, args, kw)
+            raise Unsupported("call " + n.func.id)
+        if isinstance(n.func, ast.Attribute):
+            f = n.func
+            # Base.method(self, x)
+            if isinstance(f.value, ast.Name) and f.value.id not in env:
+                c = self.find(f.value.id)
+                if isinstance(c, ast.ClassDef) and args and isinstance(args[0], Inst):
+                    r = mro_lookup(self.home(c), c, f.attr)
+                    if r and isinstance(r[1], ast.FunctionDef):
+                        return self.func(r[1], args, kw)
+                raise Unsupported("call " + src(f))
+            recv = self.expr(f.value, env)
+            if isinstance(recv, Inst):
+                if f.attr in recv.fields:
+                    return self._call_value(recv.fields[f.attr], args, kw, src(f))
+                return self.method(recv, f.attr, args, kw)
+            for types, names in _OBJ_METHODS.items():
+                if isinstance(recv, types) and f.attr in names:
+                    try:
+                        return getattr(recv, f.attr)(*args, **kw)
+                    except _PY_ERRORS as e:
+                        raise Raised(_err_name(e))
+            if isinstance(recv, (int, float, type(None), bool, tuple)):
+                raise Raised("AttributeError")
+            raise Unsupported("call " + src(f))
+        raise Unsupported("call " + src(n.func))
+
+    def _call_value(self, callee, args, kw, what):
+        if isinstance(callee, _Bound):
+            return self.method(callee.inst, callee.name, args, kw)
+        if isinstance(callee, _ClassRef):
+            return self.construct(callee.cls, args, kw)
+        if callable(callee) and type(callee).__name__ == "builtin_function_or_method" and getattr(callee, "__self__", None) is not None \
+                and any(isinstance(callee.__self__, t) and callee.__name__ in names for t, names in _OBJ_METHODS.items()):
+            try:
+                return callee(*args, **kw)
+            except _PY_ERRORS as e:
+                raise Raised(_err_name(e))
+        if isinstance(callee, type) and callee in _TYPES.values():
+            try:
+                return callee(*args, **kw)
+            except _PY_ERRORS as e:
+                raise Raised(_err_name(e))
+        raise Unsupported("call of value " + what)
+
+
+def _load(t: ast.AST) -> ast.AST:
+    e = fresh(t)
+    for x in ast.walk(e):
+        if hasattr(x, "ctx"):
+            x.ctx = ast.Load()
+    return e
+
+
+_EXC_PARENT = {"struct.error": "Exception", "UnicodeDecodeError": "UnicodeError", "UnicodeEncodeError": "UnicodeError", "UnicodeError": "ValueError",
+               "KeyError": "LookupError", "IndexError": "LookupError", "ZeroDivisionError": "ArithmeticError", "OverflowError": "ArithmeticError",
+               "Exception": "BaseException", "BaseException": None}
+
+
+def _handler_matches(h: ast.ExceptHandler, name: str) -> bool:
+    if h.type is None:
+        return True
+    ts = h.type.elts if isinstance(h.type, ast.Tuple) else [h.type]
+    wanted = {(dotted(t) or "?") if dotted(t) == "struct.error" else (dotted(t) or "?").split(".")[-1] for t in ts}
+    cur: Optional[str] = name
+    for _ in range(8):
+        if cur is None:
+            return False
+        if cur in wanted or (cur == "struct.error" and "error" in wanted):
+            return True
+        cur = _EXC_PARENT.get(cur, "Exception")
+    return False
+
+
+def _derives(mod, cls: ast.ClassDef, name: str, seen=()) -> bool:
+    if cls.name == name:
+        return True
+    from sa.source import base_names
+    for b in base_names(cls):
+        c = mod.find(b)
+        if isinstance(c, ast.ClassDef) and b not in seen and _derives(mod, c, name, seen + (b,)):
+            return True
+    return False
 
 
 def run_eval(fn):
@@ -381,6 +749,8 @@ def run_eval(fn):
         return "raised", ex.name
     except Unsupported as ex:
         return "unsupported", str(ex)
+    except RecursionError:
+        return "unsupported", "recursion limit of the analyser"
 
 
 # ---- DNS: the encode/decode family ----------------------------------------------------------------------------------
